@@ -41,12 +41,13 @@ def FactsOK : Prop :=
   C04.sk_queueTargetAsync = expected_sk_queueTargetAsync ∧ C04.sk_addPendingBuild = expected_sk_addPendingBuild ∧
   C04.sk_taskDone = expected_sk_taskDone ∧ C04.sk_Stop = expected_sk_Stop ∧
   C04.sk_asyncError = expected_sk_asyncError ∧ C04.sk_Build = expected_sk_Build ∧ C04.sk_Run = expected_sk_Run ∧
-  C04.sk_buildTarget = expected_sk_buildTarget ∧ C04.initFacts = expectedInitFacts
+  C04.sk_buildTarget = expected_sk_buildTarget ∧ C04.initFacts = expectedInitFacts ∧
+  C04.waitLoop = expectedWaitLoop ∧ C04.waitSkip = none
 
 /-- Obligation a code change can break (each equation is between two literals: `rfl` checks it, and fails to
     check when the extracted text differs). -/
 theorem C04_facts_ok : FactsOK :=
-  ⟨by decide, rfl, rfl, rfl, rfl, rfl, rfl, by decide, rfl, rfl, rfl, rfl, rfl, rfl, rfl, rfl, rfl, rfl⟩
+  ⟨by decide, rfl, rfl, rfl, rfl, rfl, rfl, by decide, rfl, rfl, rfl, rfl, rfl, rfl, rfl, rfl, rfl, rfl, rfl, rfl⟩
 
 open PlzVerif.Sched.Facts in
 /-- …and the model agrees with those facts where it can be asked: `rank` is the enum position, the only state
@@ -58,6 +59,16 @@ theorem C04_model_matches_facts :
       expectedCasPairs.all ((modelQrtPairs ++ modelQueuerPairs).contains ·)) = true ∧
     modelQrtEarlyReturn = expectedQrtEarlyReturn ∧ modelIsBuilt = expectedIsBuilt := by
   refine ⟨by decide, by decide, by decide, by decide⟩
+
+open PlzVerif.Sched.Facts PlzVerif.Generated in
+/-- The drivers replay logs through `fireG` instantiated with the wait-loop test extracted from the code (a state
+    test before `WaitForBuild` that passes a dependency over, `waitSkip`); for the code at hand there is none, so what
+    the drivers run is exactly the `fire` the theorems are about.  (A change such as `if t.State() >= Built { continue }`
+    flips the fact: this theorem and `C04_facts_ok` stop checking, while the driver follows the code.) -/
+theorem C04_driver_runs_the_model (c : Cfg) (s : St) (a : Action) :
+    fireG c (skipOf C04.waitSkip) s a = fire c s a := by
+  have : skipOf C04.waitSkip = none := rfl
+  rw [this]; exact fireG_none c s a
 
 variable (c : Cfg)
 
